@@ -15,7 +15,7 @@
    byte-wise / fixed / mixed fragmentation with the oracles C02.* on the real events, and scenario_publish / scenario_play
    are computed instances reaching the states the theorems start from; metadata items are covered by the same runs. *)
 From RML Require Import Model.Base Model.Chunk Model.ChunkSer Model.ChunkDe Model.Messages Model.SessionCommon Model.Server Model.Client
-  Model.Interop Proofs.ChunkSerProofs Proofs.InteropProofs Proofs.SessionPartition Proofs.ClientPartition Proofs.InteropPartition.
+  Model.Interop Proofs.ChunkSerProofs Proofs.InteropProofs Proofs.SessionPartition Proofs.ClientPartition Proofs.InteropPartition Proofs.MetadataProofs Proofs.InteropMetadata.
 From Coq Require Import String.
 Local Open Scope N_scope.
 
@@ -58,6 +58,24 @@ Theorem C02_play_any_partition : forall items s c clock sid pieces,
      feed_client c pieces clock [] = (c', map (fun i => match i with Item video data ts _ => cmedia_event video data ts end) items, CVOk)).
 Proof. exact play_sequence_any_partition. Qed.
 
+(* metadata: what the client publishes is what the server raises (u32 fields and flags exactly; the f32 frame rate whenever its bits
+   survive f32 -> f64 -> f32, i.e. for every non-NaN value); the call fails only when the AMF0 body exceeds the chunk layer's limit *)
+Theorem C02_publish_metadata : forall c s md clock sclock sid app key,
+  Link (cl_ser c) (sv_de s) -> ser_ok (sv_ser s) ->
+  publishing_stream c = Ok sid -> sid < 4294967296 -> clock < 4294967296 -> md_ok md -> enc_ok md ->
+  sv_connected s = true -> publishing_key s sid = Some (app, key) ->
+  (exists e, client_publish_metadata c md clock = (c, CErr e)) \/
+  exists b c' s' rs,
+    client_publish_metadata c md clock = (c', COk [CPacket b false]) /\
+    server_handle_input s b sclock = (s', ROk rs) /\
+    events rs = [EvMetadata app key md] /\
+    Link (cl_ser c') (sv_de s') /\ ser_ok (sv_ser s') /\ publishing_stream c' = Ok sid /\
+    sv_connected s' = true /\ publishing_key s' sid = Some (app, key).
+Proof. exact publish_metadata_delivered. Qed.
+
+Theorem C02_metadata_mapping_identity : forall m, md_ok m -> metadata_of_props (metadata_props_client m) = m.
+Proof. exact metadata_roundtrip_client. Qed.
+
 Example C02_scenario_publish :
   filter is_media_or_lifecycle (server_events_of (ex_run ex_publish_ops)) =
   [ EvConnectionRequested 0 (str "live");
@@ -84,3 +102,5 @@ Print Assumptions C02_publish_sequence.
 Print Assumptions C02_play_sequence.
 Print Assumptions C02_publish_any_partition.
 Print Assumptions C02_play_any_partition.
+Print Assumptions C02_publish_metadata.
+Print Assumptions C02_metadata_mapping_identity.
